@@ -4,7 +4,7 @@
    signatures, end < start.  Every class is printed as a replay case. *)
 EXTENDS Naturals, Sequences, FiniteSets, TLC, Json
 Rpcs == {"GetVersion", "GetBlock", "GetBlockTime", "GetTransaction", "StreamBlocks", "StreamTransactions", "Get"}
-SlotC == {"archived", "skipped", "zero", "huge", "other-epoch"}
+SlotC == {"archived", "first-of-epoch", "skipped", "zero", "huge", "other-epoch"}   \* first-of-epoch: the parent block is in an epoch that is not loaded
 SigC == {"nil", "short", "archived", "absent", "long"}
 \* epochs-before-start: the range is reversed across several epochs (end 3 epochs before start)
 EndC == {"absent", "after", "before-start", "epochs-before-start", "huge"}
